@@ -29,7 +29,7 @@ COQ = os.path.join(VERIF, "coq")
 TH = os.path.join(COQ, "theories")
 HARNESS = os.path.join(VERIF, "harness")
 WORK = os.path.join(VERIF, "work")
-REPO = "/repo"
+REPO = os.environ.get("VERIF_REPO", "/repo")   # overridden only by tools/seeded_all.sh (background runs on a snapshot)
 FORBIDDEN = re.compile(
     r"\b(Admitted|admit|Axiom|Axioms|Parameter|Parameters|Conjecture|Conjectures|Hypothesis|"
     r"Hypotheses|Variable|Variables|bypass_check|Unset\s+Guard|Unset\s+Positivity|"
